@@ -401,11 +401,11 @@ let run_r (victim : string) (suite : string) (cfgs : string) (chv : string) (pac
   let cfg = parse_cfg cfgs in
   let fl = flights packing in
   match victim with
-  | "sg" ->
+  | "sg" | "sa" ->
     let cert = if flag cfg "cc" then Some (c_auth, k_auth) else None in
     let ccfg = { (c08_client ~suite ~cert ~trusted:[c_sig; c_enc]) with c_cache = flag cfg "tk" } in
     let scfg = { (c08_server ~auth:(int_of_string (get cfg "auth")) ~certs:genuine ~client_trusted:[c_auth]) with
-                 s_tickets = flag cfg "tk" } in
+                 s_tickets = flag cfg "tk"; s_mode = (if victim = "sa" then AutoSwitch else GMOnly) } in
     let c0 = client_init ccfg in
     (* first flight: the ClientHello, with the scripted client_version *)
     let outs0 = List.map (fun o -> match o with
